@@ -49,6 +49,15 @@ func CapturesOnly(ctx context.Context, b *board.Board) (board.MovePriorityFn, bo
 	}
 }
 
+// ForcingOnly is a forward-pruning exploration for the MAIN search: captures, promotions and moves that give
+// check (the predicate is called after the move has been pushed, so the board shows the reply side). Nodes
+// with legal moves none of which is selected are common under it.
+func ForcingOnly(ctx context.Context, b *board.Board) (board.MovePriorityFn, board.MovePredicateFn) {
+	return search.MVVLVA, func(m board.Move) bool {
+		return m.IsCaptureOrEnPassant() || m.IsPromotion() || b.Position().IsChecked(b.Turn())
+	}
+}
+
 // Config describes one search configuration: the real search object and the functions
 // the dump needs to mirror its move selection and leaf evaluation.
 type Config struct {
@@ -90,6 +99,9 @@ func NewConfig(name string) *Config {
 		q := sargon.OnePlyIfChecked{Leaf: search.Leaf{Eval: points}}
 		s := sargon.Hook{Eval: search.AlphaBeta{Explore: sargon.SkipUnderPromotions, Eval: q}, Hook: points}
 		return &Config{Name: name, Cfg: "sargon", Search: s, Explore: sargon.SkipUnderPromotions, Eval: points, Reset: points.Reset, Quiet: q}
+	case "forcing":
+		leaf := search.Leaf{Eval: HashEval{}}
+		return &Config{Name: name, Cfg: "static", Search: search.AlphaBeta{Explore: ForcingOnly, Eval: leaf}, Explore: ForcingOnly, Eval: HashEval{}, Quiet: leaf, PosDet: true}
 	case "bernstein":
 		tab := bernstein.PlausibleMoveTable{Limit: 7}
 		ev := bernstein.Eval{Factor: 8}
